@@ -608,6 +608,11 @@ impl<'db> AbiBuilder<'db> {
                     }
                 };
                 let concrete_variants = self.db.concrete_enum_variants(*concrete_enum_id)?;
+                // A variant name that is defined twice (an error reported elsewhere) appears
+                // twice in the syntax-derived data but once in the semantic model.
+                if variants.len() != concrete_variants.len() {
+                    return Err(ABIError::SemanticError);
+                }
                 let event_fields = zip_eq(variants, concrete_variants)
                     .map(|((name, kind), concrete_variant)| {
                         let source = Source::Variant(concrete_variant.id);
